@@ -422,7 +422,7 @@ def run(chk):
     srcs = [lg.prog_src(f) for f, _ in cases]
     verdicts = run_checker(sxs)
     impl = lc.run_impl(srcs, opts="noexec")
-    acc = rej = dis = 0
+    acc = rej = dis = folded = 0
     for (fns, desc), sx, src, v, c in zip(cases, sxs, srcs, verdicts, impl):
         st = c.get("status")
         if st in ("signal", "exit", "exception", "unparsable", "timeout"):
@@ -431,6 +431,9 @@ def run(chk):
         if st == "error" and c.get("cat") in ("Parse", "Lexical"):
             continue                       # not expressible in the surface syntax (e.g. a declaration as a branch)
         impl_accept = st == "ok"
+        if not impl_accept and "constant integer expression" in (c.get("msg") or ""):
+            folded += 1
+            continue                       # the analyser folds final int initialisers and array sizes and rejects x / 0 there: not modelled
         if v == "accept":
             acc += 1
         elif v == "reject":
@@ -458,7 +461,7 @@ def run(chk):
             chk.report("c16-rule-overreach", {"rule": rule, "position": pos, "source": good, "implementation": {k: g.get(k) for k in ("status", "cat", "msg")}},
                        "the repaired twin for '%s' (%s) is rejected: %s" % (rule, pos, (g.get("msg") or "")[:100]))
     chk.cov.update({"programs": len(cases) + 2 * npairs, "mutated_programs": len(cases), "reference_accepts": acc, "reference_rejects": rej,
-                    "mutation_kinds": kinds, "disagreements_checked": dis, "class_rule_pairs": npairs,
+                    "mutation_kinds": kinds, "skipped_constant_folding_rejections": folded, "disagreements_checked": dis, "class_rule_pairs": npairs,
                     "rule": "valid classical programs with one rule-directed edit: an expression of another type in any expression slot (initialiser, assignment, "
                             "element assignment, condition, echo, return, argument, nested operand), a variable swapped for another / an undeclared one, final toggled, "
                             "declared or return type changed (incl. void), return shape flipped, a declaration repeated in the body or a nested block or moved later, "
